@@ -188,6 +188,97 @@ theorem call_keys_bounded [DecidableEq K] (c : Cfg A K V) (s : St K V) (a : A)
         omega
     · simp only [hover, if_false]; omega
 
+/-! ### tables with an eviction policy -/
+
+/-- a policy is sound when it never invents entries: after a hit the table holds only entries it
+held before, after a miss only those and the new one -/
+structure Evict.Sound [DecidableEq K] (e : Evict K V) : Prop where
+  hit  : ∀ k v s, lookup k s = some v → ∀ p, p ∈ e.onHit k v s → p ∈ s
+  miss : ∀ cap k v s p, p ∈ e.onMiss cap k v s → p = (k, v) ∨ p ∈ s
+
+theorem mem_pushCap {cap : Nat} {s : List (K × V)} {k : K} {v : V} {p : K × V}
+    (h : p ∈ pushCap cap s k v) : p = (k, v) ∨ p ∈ s := by
+  unfold pushCap at h
+  rcases List.mem_append.mp (List.mem_of_mem_drop h) with h1 | h1
+  · exact Or.inr h1
+  · exact Or.inl (by simpa using h1)
+
+theorem pushCap_length (cap : Nat) (s : List (K × V)) (k : K) (v : V) :
+    (pushCap cap s k v).length ≤ cap := by
+  unfold pushCap
+  simp only [List.length_drop, List.length_append, List.length_singleton]
+  omega
+
+theorem lru_sound [DecidableEq K] : (lru : Evict K V).Sound where
+  hit := by
+    intro k v s hl p hp
+    simp only [lru] at hp
+    rcases List.mem_append.mp hp with h1 | h1
+    · exact erase_subset h1
+    · have : p = (k, v) := by simpa using h1
+      rw [this]; exact lookup_mem hl
+  miss := by
+    intro cap k v s p hp
+    exact mem_pushCap hp
+
+theorem fifo_sound [DecidableEq K] : (fifo : Evict K V).Sound where
+  hit := by intro k v s _ p hp; exact hp
+  miss := by intro cap k v s p hp; exact mem_pushCap hp
+
+/-- every stored value is the function value of some admissible call with that key -/
+def TInv (c : Cfg A K V) (H : A → Prop) (s : List (K × V)) : Prop :=
+  ∀ k v, (k, v) ∈ s → ∃ a, H a ∧ c.enc a = k ∧ c.f a = v
+
+theorem tcall_correct [DecidableEq K] (e : Evict K V) (he : e.Sound) (c : Cfg A K V)
+    (H : A → Prop) (hinj : ∀ a b, H a → H b → c.enc a = c.enc b → c.f a = c.f b)
+    (s : List (K × V)) (a : A) (ha : H a) (h : TInv c H s) :
+    (tcall e c s a).2 = c.f a ∧ TInv c H (tcall e c s a).1 := by
+  unfold tcall
+  cases hl : lookup (c.enc a) s with
+  | some v =>
+    simp only
+    obtain ⟨b, hb, hb1, hb2⟩ := h _ _ (lookup_mem hl)
+    refine ⟨by rw [← hb2]; exact hinj b a hb ha hb1, ?_⟩
+    intro k w hm
+    exact h k w (he.hit _ _ _ hl _ hm)
+  | none =>
+    simp only
+    refine ⟨by trivial, ?_⟩
+    intro k w hm
+    rcases he.miss _ _ _ _ _ hm with h1 | h1
+    · cases h1; exact ⟨a, ha, rfl, rfl⟩
+    · exact h k w h1
+
+theorem erase_length_le [DecidableEq K] (k : K) :
+    ∀ l : List (K × V), (erase k l).length ≤ l.length := by
+  intro l
+  induction l with
+  | nil => simp [erase]
+  | cons h t ih =>
+    obtain ⟨k', v'⟩ := h
+    simp only [erase]
+    split
+    · simp only [List.length_cons]; omega
+    · simp only [List.length_cons]; omega
+
+theorem erase_length_lt [DecidableEq K] (k : K) (v : V) :
+    ∀ l : List (K × V), lookup k l = some v → (erase k l).length + 1 ≤ l.length := by
+  intro l
+  induction l with
+  | nil => intro h; simp [lookup] at h
+  | cons h t ih =>
+    obtain ⟨k', v'⟩ := h
+    intro hl
+    simp only [lookup] at hl
+    simp only [erase]
+    split
+    · have := erase_length_le (V := V) k t
+      simp only [List.length_cons]; omega
+    · rename_i hk
+      simp only [hk, if_false] at hl
+      have := ih hl
+      simp only [List.length_cons]; omega
+
 /-! ### contour deques -/
 
 theorem findIdx?_get (i : Nat) : ∀ (l : List Nat) (q : Nat), findIdx? i l = some q → l[q]? = some i := by
